@@ -501,6 +501,20 @@ class SetAlg:
             a_, b_ = self.cond(c[1]), self.cond(c[2])
             iff = f_or(f_and(a_, b_), f_and(f_not(a_), f_not(b_)))
             return iff if h == "eq" else f_not(iff)
+        if h in ("eq", "ne"):
+            # A ∩ B == A  <=>  A ⊆ B ;  A ∪ B == B  <=>  A ⊆ B
+            for l_, r_ in ((c[1], c[2]), (c[2], c[1])):
+                ls_ = self.strip(l_) if l_[0] in ("setof",) else l_
+                if ls_[0] == "inter" and len(ls_) == 3:
+                    for i_, j_ in ((1, 2), (2, 1)):
+                        if self.strip(ls_[i_]) == self.strip(r_):
+                            sub = self.cond(("subset", ls_[i_], ls_[j_]))
+                            return sub if h == "eq" else f_not(sub)
+                if ls_[0] == "union" and len(ls_) == 3:
+                    for i_, j_ in ((1, 2), (2, 1)):
+                        if self.strip(ls_[j_]) == self.strip(r_):
+                            sub = self.cond(("subset", ls_[i_], ls_[j_]))
+                            return sub if h == "eq" else f_not(sub)
         if h == "eq":
             return self.eq_atom(c[1], c[2])
         if h == "ne":
@@ -718,6 +732,28 @@ class SetAlg:
         if h == "call" and t[1] in ("tuple", "list") and len(t[2]) == 1 and not t[3] and t[2][0][0] == "comp" and t[2][0][1] in ("list", "gen"):
             # tuple(<comprehension>) / list(<generator>): the same sequence of items
             return self.canon_opaque(t[2][0])
+        if h == "comp" and t[1] != "dict" and not (isinstance(t[2], tuple) and t[2] and t[2][0] == "%payload"):
+            # conditional expressions nested inside the element are lifted to one case distinction on the element
+            from .symeval import _first_ite
+            elt = t[2]
+            for _ in range(6):
+                it = _first_ite(elt) if elt[0] != "ite" else None
+                if elt[0] == "ite":
+                    # lift inside the branches
+                    def lift(e_, n=4):
+                        i2 = _first_ite(e_) if n else None
+                        if i2 is None or i2[0] != "ite" or i2 is e_ or i2 == e_:
+                            if e_[0] == "ite":
+                                return ("ite", e_[1], lift(e_[2], n), lift(e_[3], n))
+                            return e_
+                        return ("ite", i2[1], lift(subst(e_, {i2: i2[2]}), n - 1), lift(subst(e_, {i2: i2[3]}), n - 1))
+                    elt = lift(elt)
+                    break
+                if it is None or it[0] != "ite":
+                    break
+                elt = ("ite", it[1], subst(elt, {it: it[2]}), subst(elt, {it: it[3]}))
+            if elt != t[2]:
+                t = ("comp", t[1], elt, t[3])
         if h == "comp":
             gens = tuple((self.canon(p), self.canon(self.strip(i) if t[1] in ("set",) else i), tuple(self._canon_cond(c) for c in cs)) for p, i, cs in t[3])
             # a generator expression handed to a consumer is the sequence a list comprehension would hold
@@ -731,14 +767,16 @@ class SetAlg:
         if h == "ite":
             # a chain of conditionals is a case distinction: the set of (full guard, value) pairs, independent of the order of the tests
             cases = []
-            neg = []
-            cur = t
-            while cur[0] == "ite":
-                c = self.cond(cur[1])
-                cases.append((f_and(*neg, c), cur[2]))
-                neg.append(f_not(c))
-                cur = cur[3]
-            cases.append((f_and(*neg), cur))
+
+            def walk(e_, guard, depth=0):
+                if e_[0] == "ite" and depth < 8:
+                    c = self.cond(e_[1])
+                    walk(e_[2], f_and(guard, c), depth + 1)
+                    walk(e_[3], f_and(guard, f_not(c)), depth + 1)
+                else:
+                    cases.append((guard, e_))
+
+            walk(t, True)
             out = []
             for g, v in cases:
                 if g is False:
